@@ -207,8 +207,19 @@ func (t *Transaction) initializeCache() error {
 	if t.Cache != nil {
 		return nil
 	}
+	// Unique values may be duplicated transiently inside a transaction, which
+	// the schema indexes of a cache (one row per value) cannot represent:
+	// build the transaction cache without them, so that its look-ups scan.
+	// Uniqueness is checked at the end, by checkIndexes.
+	m := t.Model
+	tables := make(map[string]ovsdb.TableSchema, len(m.Schema.Tables))
+	for name, table := range m.Schema.Tables {
+		table.Indexes = nil
+		tables[name] = table
+	}
+	m.Schema.Tables = tables
 	var err error
-	t.Cache, err = cache.NewTableCache(t.Model, nil, t.logger)
+	t.Cache, err = cache.NewTableCache(m, nil, t.logger)
 	return err
 }
 
